@@ -21,7 +21,7 @@ SPEC = {
         "spectral_density of Gaussian, Exponential, Matern, Integral, HyperSpherical, JBessel",
         "check_dim of all 17 classes; default_opt_arg / default_opt_arg_bounds; CovModel.__init__ -> set_opt_args, check_arg_bounds, check_arg_in_bounds",
     ],
-    "bounds": {"quick": {"dim": "1-3 (guards and bounds also 4)", "values": "lag, wave number, length scale, rescale and shape parameters symbolic", "points": "3 collinear points for the matrix obligations (Linear; TPLSimple with nu = 2, 3)"}, "thorough": {"adds": "cvc5 cross-check of the polynomial obligations (Cubic, Spherical) and 3-point matrices of Spherical / Cubic attempted (reported as not claimed while undecided)"}},
+    "bounds": {"quick": {"dim": "1-3 (guards and bounds also 4, space+time with spatial dim 1-3, lat-lon, lat-lon+time)", "values": "lag, wave number, length scale, rescale and shape parameters symbolic", "points": "3 collinear points for the matrix obligations (Linear; TPLSimple with nu = 2, 3)"}, "thorough": {"adds": "cvc5 cross-check of the polynomial obligations (Cubic, Spherical) and 3-point matrices of Spherical / Cubic attempted (reported as not claimed while undecided)"}},
     "stubs": ["special functions uninterpreted with the sign / range facts of the theory pack (Gamma > 0 on x > 0, 0 <= P(s,x) <= 1, exp > 0, ...)"],
     "oracle": "rho(0) = 1, |rho| <= 1; S(k) >= 0; validity table of the literature: Linear d < 2, Circular d < 3, Spherical d < 4; JBessel nu >= d/2 - 1, SuperSpherical nu >= (d-1)/2, TPLSimple nu >= (d+1)/2; a 3x3 correlation matrix is positive semi-definite iff all principal minors are >= 0",
     "outside": [
@@ -153,16 +153,21 @@ def job_guards(name, tier):
     out = []
     tag = f"C02/guards/{name}"
     rb = ("guards", lambda v: {"model": name, "values": v})
-    for d in (1, 2, 3, 4):
+    # (label, constructor keywords, dimension of the space the covariance lives in): plain d = 1..4; space + time (the metric
+    # space-time model lives in spatial_dim + 1 dimensions); lat-lon (Yadrenko: the chordal distance lives in 3 dimensions)
+    configs = [(f"d{d}", {"dim": d}, d) for d in (1, 2, 3, 4)]
+    configs += [(f"s{sd}+t", {"spatial_dim": sd, "temporal": True}, sd + 1) for sd in (1, 2, 3)]
+    configs += [("latlon", {"latlon": True}, 3), ("latlon+t", {"latlon": True, "temporal": True}, 4)]
+    for label, ckw, d in configs:
         cls = getattr(gs, name)
         fixed = {"hurst": 0.5} if name in c03.TPL else {}
         with warnings.catch_warnings(record=True) as w:
             warnings.simplefilter("always")
-            m0 = cls(dim=d, **fixed)
+            m0 = cls(**ckw, **fixed)
             warned = any("dim" in str(x.message).lower() and "not" in str(x.message).lower() for x in w)
         want_valid = d <= VALID_DIM.get(name, 99)
-        ok = (bool(m0.check_dim(d)) == want_valid) and (warned == (not want_valid))
-        out.append(rec(f"{tag}/d{d}/check_dim and the invalid-dimension warning == validity table", "unsat" if ok else "sat", vacuity="sat", witness={}, replay={"kind": "guards", "inputs": rb[1]({})}, detail=f"check_dim={m0.check_dim(d)} warned={warned} table={want_valid}"))
+        ok = (m0.dim == d) and (bool(m0.check_dim(d)) == want_valid) and (warned == (not want_valid))
+        out.append(rec(f"{tag}/{label}/model dimension, check_dim and the invalid-dimension warning == validity table", "unsat" if ok else "sat", vacuity="sat", witness={}, replay={"kind": "guards", "inputs": rb[1]({})}, detail=f"dim={m0.dim} check_dim={m0.check_dim(d)} warned={warned} table={want_valid}"))
         if not want_valid:
             continue
         # the default shape parameter is itself admissible and the bounds equal the validity thresholds
@@ -175,13 +180,13 @@ def job_guards(name, tier):
 
             def run():
                 try:
-                    mm = cls(dim=d, **{kname: x}, **fixed)
+                    mm = cls(**ckw, **{kname: x}, **fixed)
                 except ValueError as e:
                     return ("rejected", str(e)[:60])
                 return ("accepted", getattr(mm, kname))
 
             for pi, p in enumerate(explore(run, max_paths=40)):
-                base = f"{tag}/d{d}/{kname}/path{pi}"
+                base = f"{tag}/{label}/{kname}/path{pi}"
                 if p.exc is not None:
                     out.append(rec(base, "error", detail=f"{p.exc!r} {p.tb}"))
                     continue
@@ -198,7 +203,7 @@ def job_guards(name, tier):
                     out.append(prove(base + f"/rejected => {kname} outside the validity range of d={d}", p.conds, z3.Not(inb), T, witness_vars=wv, replay=rb))
             dflt = getattr(m0, kname)
             okd = (lo is None or (dflt >= lo if typ[0] == "c" else dflt > lo)) and (hi is None or (dflt <= hi if typ[1] == "c" else dflt < hi))
-            out.append(rec(f"{tag}/d{d}/{kname}/default value admissible", "unsat" if okd else "sat", vacuity="sat", witness={}, replay={"kind": "guards", "inputs": rb[1]({})}, detail=f"default {dflt} range [{lo},{hi}] {typ}"))
+            out.append(rec(f"{tag}/{label}/{kname}/default value admissible", "unsat" if okd else "sat", vacuity="sat", witness={}, replay={"kind": "guards", "inputs": rb[1]({})}, detail=f"default {dflt} range [{lo},{hi}] {typ}"))
     return out
 
 
@@ -317,14 +322,17 @@ def replay_guards(inputs):
     cls = getattr(gs, name)
     fixed = {"hurst": 0.5} if name in c03.TPL else {}
     bad = []
-    for d in (1, 2, 3, 4):
+    configs = [(f"d{d}", {"dim": d}, d) for d in (1, 2, 3, 4)]
+    configs += [(f"s{sd}+t", {"spatial_dim": sd, "temporal": True}, sd + 1) for sd in (1, 2, 3)]
+    configs += [("latlon", {"latlon": True}, 3), ("latlon+t", {"latlon": True, "temporal": True}, 4)]
+    for label, ckw, d in configs:
         with warnings.catch_warnings(record=True) as w:
             warnings.simplefilter("always")
-            m0 = cls(dim=d, **fixed)
+            m0 = cls(**ckw, **fixed)
             warned = any("dim" in str(x.message).lower() and "not" in str(x.message).lower() for x in w)
         want = d <= VALID_DIM.get(name, 99)
-        if bool(m0.check_dim(d)) != want or warned != (not want):
-            bad.append(f"d={d}: check_dim={m0.check_dim(d)} warned={warned}, table says valid={want}")
+        if m0.dim != d or bool(m0.check_dim(d)) != want or warned != (not want):
+            bad.append(f"{label}: dim={m0.dim} check_dim={m0.check_dim(d)} warned={warned}, table says valid={want}")
         if not want:
             continue
         for kname, b in c03.MODELS[name].items():
@@ -339,12 +347,12 @@ def replay_guards(inputs):
                 with warnings.catch_warnings():
                     warnings.simplefilter("ignore")
                     try:
-                        cls(dim=d, **{kname: x}, **fixed)
+                        cls(**ckw, **{kname: x}, **fixed)
                         acc = True
                     except ValueError:
                         acc = False
                 if acc != inb:
-                    bad.append(f"d={d} {kname}={x}: accepted={acc} but validity range [{lo},{hi}] {typ}")
+                    bad.append(f"{label} (covariance lives in {d} dimensions) {kname}={x}: accepted={acc} but validity range [{lo},{hi}] {typ}")
     return (not bad), f"{name} {bad[:4]}"
 
 
